@@ -11,7 +11,7 @@ import numpy as np
 from .common import Spec, Driver
 from . import c09
 from .c09 import (real_write, real_read, canon_real, parse_read_answer, write_line, val, case_repr, case_features,
-                  effective_chunks, mk_chna, mk_case, CHNA_OPTS, CHUNK_OPTS, FRAME_OPTS, _vrepr)
+                  effective_chunks, mk_chna, mk_case, CHNA_OPTS, CHUNK_OPTS, FRAME_OPTS, _vrepr, split_write_answer)
 
 MAX_LEN = 600
 
@@ -88,6 +88,7 @@ def _trunc_worker(args):
 
 THEOREMS = (
     "unclosedFile_layout", "readChunks_chunkEnd", "C17_unclosed",
+    "readChunks_continue", "readChunks_dataPad", "unclosed_walk_without_bound", "unclosed_at_limit_accepted",
     "take_encAll", "walk_prefix", "prefix_lateC", "trunc_body", "readHead_riff_short", "readHead_bw64_short",
     "closedFile_written", "C17_truncation",
 )
@@ -100,8 +101,11 @@ class C17(Spec):
     theorems = tuple("Earverif.Bw64." + t for t in THEOREMS)
     trusted_base = c09.C09.trusted_base
     assumptions = c09.C09.assumptions + (
-        "unfinished files hold fewer than 2^32 - 1 data bytes (with exactly 2^32 - 1 the placeholder size is "
-        "indistinguishable from a real size)",
+        "unfinished files hold fewer than 2^32 - 1 data bytes. EVERYTHING from 2^32 - 1 upwards is outside C17_unclosed: "
+        "with exactly 2^32 - 1 the placeholder size 0xFFFFFFFF is the true size and the file is accepted with the "
+        "missing-pad-byte warning whenever the block alignment divides 2^32 - 1 (theorem unclosed_at_limit_accepted); with "
+        "2^32 or more the placeholder chunk ends inside the file and the chunk walk carries on parsing sample bytes as "
+        "chunk headers (theorem unclosed_walk_without_bound) -- the verdict then depends on the sample bytes",
     )
     rule = (
         "crash points: the buffer after construction and after every write/setter call of a generated history; "
@@ -121,7 +125,8 @@ class C17(Spec):
             for n, snap in enumerate(snaps):
                 metas.append((case, n, snap))
                 if driver:
-                    lines.append(write_line(case, False, nops=n))
+                    # alternate sample-level (the model encodes the floats) and byte-level histories
+                    lines.append(write_line(case, False, nops=n, mode="samples" if (ci + n) % 2 == 0 else "bytes"))
                     lines.append("read " + val(snap))
         outs = driver.run(lines) if driver else []
         for i, (case, n, snap) in enumerate(metas):
@@ -132,10 +137,16 @@ class C17(Spec):
             ctx.count("unclosed:verdict:" + (r[1] if r[0] == "err" else "accepted"))
             if driver:
                 ok = True
-                if outs[2 * i] != snap.hex():
+                flag, wout = split_write_answer(outs[2 * i])
+                ctx.count("unclosed:theorem-hypotheses:" + {"H": "inside", "N": "OUTSIDE", None: "no-answer"}[flag])
+                if flag == "N":
                     ok = False
-                    ctx.disagree("unclosed Bw64Writer buffer vs Earverif.Bw64.unclosedFile",
-                                 dict(case=case_repr(case), after_ops=n), outs[2 * i], snap.hex())
+                    ctx.disagree("generated history outside the hypotheses of C17_unclosed (generator drifted)",
+                                 dict(case=case_repr(case), after_ops=n), "N", "H expected")
+                if wout != snap.hex():
+                    ok = False
+                    ctx.disagree("unclosed Bw64Writer buffer vs Earverif.Bw64.unclosedFile(S)",
+                                 dict(case=case_repr(case), after_ops=n), wout, snap.hex())
                 m = parse_read_answer(outs[2 * i + 1])
                 if m != canon_real(r):
                     ok = False
@@ -224,10 +235,16 @@ REGISTRY = dict(
     "construction and after every call of generated histories, and every truncation offset of generated finalised files "
     "<= 600 bytes (quick 40 files, thorough 2000 files + 600 more on the real code alone), error kinds and parsed fields "
     "compared; the two predicates of the property run on the real code for every case.",
-    note="Trusted: as C09 (Lean kernel, hand transliteration + correspondence, BytesIO semantics as modelled, PCM codec is "
-    "C16's). Unfinished files with exactly 2^32-1 data bytes are outside the quantifier (placeholder indistinguishable "
-    "from a real size). A cut that leaves the data chunk complete except for its pad byte is accepted with the "
-    "'missing padding byte' warning, by design of the reader.",
+    note="Trusted: as C09 (Lean kernel, hand transliteration + correspondence, BytesIO semantics as modelled; sample "
+    "encoding is C16's model, run inside the writer model for every second crash-point history). EXCLUDED POINT of "
+    "C17_unclosed: unfinished files with 2^32 - 1 OR MORE data bytes (not only exactly 2^32 - 1). Stated as theorems about the "
+    "model for any history with that much data (the data stays a variable; no 4 GiB list is built): "
+    "unclosed_walk_without_bound -- at exactly 2^32 - 1 bytes the chunk walk succeeds with the missing-pad warning, at >= 2^32 "
+    "bytes the placeholder data chunk ends inside the file and the walk continues at offset dpos + 8 + 2^32, i.e. it parses "
+    "sample bytes as chunk headers; unclosed_at_limit_accepted -- at exactly 2^32 - 1 bytes with a block alignment dividing "
+    "2^32 - 1 (e.g. 24-bit mono) the unfinished file is ACCEPTED (all frames, one warning). Neither is exercised on the real "
+    "code (4 GiB buffers). A cut that leaves the data chunk complete except for its pad byte is accepted with the 'missing "
+    "padding byte' warning, by design of the reader.",
     technique="Lean 4 proof about byte-level writer/reader models + differential correspondence with the real "
     "Bw64Writer/Bw64Reader over all crash points and truncation offsets + search on the real code",
     design_ref="DESIGN.md section 4, C17",
